@@ -512,7 +512,7 @@ private:
     else
     {
       *(char*)newData->str = '\0';
-      newData->len = copyLength;
+      ((char*)newData->str)[newData->len = copyLength] = '\0';
     }
     newData->ref = 1;
     newData->capacity = capacity;
